@@ -23,10 +23,10 @@ def prescribed(mode, sent, old, mn, mx):
 def gen(rnd):
     """Grid-driven: configured intervals at their own boundaries, EOD values at every boundary +-1, all four modes,
     v0 and v1; then the client is left alone so that the poll deadline shows; sometimes a notify."""
-    cfg = {"refresh": rnd.choice([1, 2, 30, 86400, 3600]), "retry": rnd.choice([1, 600, 7200]),
+    cfg = {"refresh": rnd.choice([1, 2, 2, 30, 86400, 3600]), "retry": rnd.choice([1, 600, 7200]),
            "expire": rnd.choice([600, 601, 7200, 172800]), "mode": rnd.randint(0, 3), "ver": rnd.choice([1, 1, 1, 0]),
            "ivals": (rnd.choice(EDGE["refresh"]), rnd.choice(EDGE["retry"]), rnd.choice(EDGE["expire"]))}
-    s, meta = R.build_conversation(rnd, nex=rnd.randint(2, 5), fault_p=0.1, cfg=cfg, faults=["timeout", "spurious_reset", "notify_inside"], pre=False)
+    s, meta = R.build_conversation(rnd, nex=rnd.randint(3, 7), fault_p=0.1, cfg=cfg, faults=["timeout", "spurious_reset", "notify_inside"], pre=False)
     meta["cfg"] = cfg
     return s, meta
 
